@@ -22,7 +22,8 @@ DESIGN_REF = 'DESIGN.md 4/C06'
 RULE = ('(a) every token-kind string up to the stated length bound over a 33-kind alphabet with canonical lexemes '
         '(exhaustive; distinct by construction); (b) Hypothesis random sentences of the grammar rendered with minimal '
         'parentheses; (c) one-token insert/delete/replace mutations and truncations of (b); (d) operator-pair matrix. '
-        'Oracle = frozen reference lexer+parser: accepted => identical neutral tree, rejected => implementation raises. '
+        'Random sentences hold literals and %names% that differ only in inner blanks/tabs; each text and up to 8 blank-siblings '
+        'are also judged on a parser with a parse cache kept across the job. Oracle = frozen reference lexer+parser: accepted => identical neutral tree, rejected => implementation raises. '
         'Non-trivial: the reference accepts and the tree holds >= 2 operator/suffix nodes, or a mutation of an accepted '
         'sentence that the reference rejects; random/matrix cases only count when longer than the exhaustive bound.')
 ASSUMPTIONS = ['the reference parser (sqv/spec/refparse.py) is the reading of the published grammar + operator table; '
@@ -95,7 +96,19 @@ def first_diff(a, b):
     return f'{la}|{lb}'
 
 
-def judge(text, toks=None):
+_cached = None
+
+
+def cached_parser():
+    """one parser with a parse cache per job: texts that differ only in blanks must not share a tree"""
+    global _cached
+    if _cached is None or len(_cached.parse_cache) > 3000:
+        from smartquery import SqParser
+        _cached = SqParser(parse_cache={})
+    return _cached
+
+
+def judge(text, toks=None, use=None):
     """-> (failures, ref_accepts, ref_tree, ntoks); toks = reference token list (kind, value) if already known"""
     if toks is None:
         try:
@@ -112,7 +125,7 @@ def judge(text, toks=None):
     except RecursionError:
         return [], None, None, len(toks)
     try:
-        impl = neutral(parser().parse(text))
+        impl = neutral((use or parser()).parse(text))
         impl_exc = None
     except RecursionError:
         return [], None, None, len(toks)
@@ -250,7 +263,7 @@ def job_random(seed, n, bound):
 
     @hst.composite
     def cases(draw):
-        prog = draw(sentences.programs())
+        prog = draw(sentences.programs(blanks=True))
         g = sentences.G(draw)
         seps = [g.pick(['\n', ';', '\r\n', '\n\n', ' ; ']) for _ in prog]
         mut = None
@@ -288,6 +301,22 @@ def job_random(seed, n, bound):
         fails, acc, reft, nt = judge(text)
         if acc is None:
             return hyp.Result(discard=True)
+        sib = 0
+        if not fails:
+            # the same text and its blank-siblings on a parser with a parse cache (kept across the cases of this job)
+            sibs = [text, text.replace('a b', 'a  b'), text.replace('a  b', 'a b'), text.replace('a b', 'a\tb'), text.replace('\t', ' '),
+                    text.replace(' ', '  '), text + ' ', ' ' + text, text.replace('  ', ' ')]
+            seen = set()
+            for t2 in sibs:
+                if t2 in seen:
+                    continue
+                seen.add(t2)
+                f2 = judge(t2, use=cached_parser())[0]
+                sib += 1
+                if f2:
+                    fails = [Failure('cached:' + f.signature, 'on a parser with a parse cache, after sibling texts: ' + f.message, f.case) for f in f2]
+                    break
+        st.add('texts_judged_on_cached_parser', sib)
         nontriv = nt > bound and ((acc and count_ops(reft) >= 2) or (mutated and not acc))
         cls = ['random:' + ('mutated:' if mutated else 'sentence:') + ('accepted' if acc else 'rejected')]
         return hyp.Result(fails, nontriv, cls, key='r:' + text,
